@@ -403,11 +403,8 @@ func run(c *vf.Case) {
 		}
 		s.bubble = bubble
 		s.bind()
-		if bubble {
-			synctest.Wait()
-		} else {
-			time.Sleep(2 * time.Millisecond) // stats recorders start asynchronously
-		}
+		// no settling time after the binds: traffic starts right away, like a caller's would
+		// (a stats recorder that only counts once its start goroutine ran loses these packets)
 		doClose := c.R.Chance(0.5)
 		if bubble && s.hasBWE && len(s.members) == 1 && c.R.Bool() {
 			s.bweCloseOverlap(c.R)
